@@ -242,7 +242,8 @@ def step (st : St) (fs : List String) (impl : String) : St × String × String :
   let r := exec st fs
   let r := if r.out = "err" then { r with st := { r.st with dead := true } } else r
   let out := withEvs r.out r.evs
-  if r.out = "bad-op" then (r.st, out, "-") else
+  -- an op the model rejects (misuse: over-free, use after free, out of range) is outside the property
+  if r.out = "bad-op" || r.out = "err" then (r.st, out, "-") else
   let pv := putVerdict st r.st impl
   let bv := if readsBytes fs && r.bytes.isSome && implMain impl != "err" then bytesVerdict r.bytes (implBytes fs impl) else "-"
   (r.st, out, both pv bv)
